@@ -188,7 +188,8 @@ pub fn check_state(cfg: &HistCfg, st: &HState, built: bool, w: &mut Worker) -> R
 
 /// The version of the arroy crate under test, read from its manifest.
 pub fn arroy_version() -> [u32; 3] {
-    let text = std::fs::read_to_string("/repo/Cargo.toml").unwrap_or_default();
+    let repo = std::env::var("VERIF_REPO").unwrap_or_else(|_| "/repo".to_string());
+    let text = std::fs::read_to_string(format!("{repo}/Cargo.toml")).unwrap_or_default();
     let line = text.lines().find(|l| l.trim_start().starts_with("version")).unwrap_or("version = \"0.0.0\"");
     let v: Vec<u32> = line.split('"').nth(1).unwrap_or("0.0.0").split('.').map(|p| p.parse().unwrap_or(0)).collect();
     [v.first().copied().unwrap_or(0), v.get(1).copied().unwrap_or(0), v.get(2).copied().unwrap_or(0)]
